@@ -292,7 +292,7 @@ func corrCodec(prop string, outDir string, seed uint64, tier string, withEdits b
 	rep.Distribution["types_class"] = nClass
 	rep.Distribution["types_hand"] = len(handShapes)
 	rep.Distribution["types_shipped"] = len(shippedTypes())
-	rep.Distribution["edit_budget"] = map[bool]int{false: 80, true: 2500}[tier == "thorough"]
+	rep.Distribution["edit_budget"] = map[bool]int{false: 80, true: 600}[tier == "thorough"]
 
 	unmarshalCase := func(tc codecCase, h string, kind string) (reflect.Value, error, interface{}) {
 		p := reflect.New(tc.t)
